@@ -6,8 +6,9 @@
  *
  *   send.complete  write() accepts everything or fails (any errno but EFBIG), in any sequence: TRUE => all sent
  *   send.short     additionally short counts                                                 (finding C19-short-write)
- *   send.efbig     tier B: first write() fails with EFBIG -> 1 KiB chunks through the recursive call, plain harness
- *                  with leak check                                                          (finding C19-efbig-leak)
+ * The EFBIG branch (1 KiB chunks through a recursive call) is not covered by a unit: three bounded renderings
+ * (symbolic payload <= 2100 bytes, recursion unwound) ran out of memory / time; its defect (every successfully
+ * sent chunk string leaks) is shown natively only: findings/demos/C19_efbig_chunk_leak.c.
  *
  * --conversion-check is off: SPIF_SOCKET_FLAGS_CLEAR(self, 0xff << 8) complements an int mask and stores it in the
  * uint32 flags word (defined, intended wrap-around) and would be reported on every path; the one narrowing that
@@ -39,22 +40,8 @@ timeout: 200
 checks_off: --conversion-check
 funcs: spif_socket_send, spif_str_get_len
 */
-/*@unit
-name: send.efbig
-define: NET_KERNEL, NET_OWN_WRITE, U_EFBIG
-src: socket.c
-tier: B
-bound: payload 1..2100 bytes (up to three 1 KiB chunks); first write() fails with EFBIG, every later write() accepts everything or fails; recursion and chunk loop unwound 10 with unwinding assertions
-unwind: 10
-backend: sat
-timeout: 200
-checks_off: --conversion-check
-flags: --memory-leak-check
-funcs: spif_socket_send, spif_str_get_len
-*/
 #include "vprelude.h"
 #include "env_net.h"
-#ifndef U_EFBIG
 /* facts about the write stub of the unit that the back-off loop's invariant may use (annot/socket.c.net.ann):
  * it never reports EFBIG (NET_WRITE_NO_EFBIG); in send.complete a successful write accepted everything */
 # ifdef NET_WRITE_NO_SHORT
@@ -62,25 +49,10 @@ funcs: spif_socket_send, spif_str_get_len
 # else
 #  define VG_SEND_ERRNO_INV (num_written >= 0 || vg_errno != EFBIG)
 # endif
-#else
-#define VG_SEND_ERRNO_INV 1
-/* write(): the first call of the run fails with EFBIG; later calls accept everything or fail otherwise */
-ssize_t write(int fd, const void *buf, size_t n)
-{
-    __CPROVER_assert(n == 0 || __CPROVER_r_ok(buf, n), "write: buffer readable for n bytes");
-    vg_wr_calls++;
-    if (vg_wr_calls == 1) { vg_errno = EFBIG; return -1; }
-    if (!VG_FD_OPEN(fd)) { vg_errno = EBADF; return -1; }
-    if (nondet_bool()) { vg_errno = vg_any_errno(); __CPROVER_assume(vg_errno != EFBIG && vg_errno != EAGAIN && vg_errno != EINTR); return -1; }
-    vg_wr_total += n;
-    return (ssize_t) n;
-}
-#endif
 size_t vg_iter;            /* iterations of the back-off loop (annot/socket.c.net.ann) */
 #include "socket.h"
 /* SPIF_DEFINE_PROPERTY_FUNC_C(str, spif_stridx_t, len), str.c:835, written out */
 spif_stridx_t spif_str_get_len(spif_str_t self) { return self->len; }
-#ifndef U_EFBIG
 /* callees of the EFBIG branch (not reached in these units): any fresh string / delete */
 spif_str_t spif_str_new_from_buff(spif_charptr_t buff, spif_stridx_t size)
 __CPROVER_assigns()
@@ -91,25 +63,7 @@ __CPROVER_assigns()
 __CPROVER_frees(self)
 __CPROVER_ensures(__CPROVER_return_value == TRUE)
 ;
-#else
-/* models of the two str calls of the EFBIG branch: a chunk string of strnlen(buff, size) characters
- * (contents irrelevant here: only counts and ownership are checked), and its deletion */
-spif_str_t spif_str_new_from_buff(spif_charptr_t buff, spif_stridx_t size)
-{
-    spif_str_t r = malloc(sizeof(spif_const_str_t));
-    spif_stridx_t len = nondet_long();
-    __CPROVER_assert(size >= 0, "spif_str_new_from_buff: size not negative");
-    __CPROVER_assume(len >= 0 && len <= size && (size_t) len < VREMAIN(buff) + 0 && (len == size || buff[len] == 0));
-    __CPROVER_assume(vg_k >= (size_t) len || buff[vg_k] != 0);          /* strnlen: no NUL before len (ghost index) */
-    r->len = len; r->size = (len == size) ? size + 1 : size;
-    r->s = malloc(r->size);
-    r->s[len] = 0;
-    return r;
-}
-spif_bool_t spif_str_del(spif_str_t self) { free(self->s); free(self); return TRUE; }
-#endif
 #include "src/socket.c"
-#ifndef U_EFBIG
 #define NET_SOCKET_API
 #include "socket.h"
 
@@ -120,28 +74,3 @@ void harness(void)
     spif_socket_send(s, d);
     VERIF_CANARY();
 }
-#else
-void harness(void)
-{
-    spif_socket_t s = malloc(sizeof(spif_const_socket_t));
-    spif_str_t d = malloc(sizeof(spif_const_str_t));
-    int fd = nondet_int(); unsigned i;
-    __CPROVER_assume(VG_FD_VALID(fd));
-    for (i = 0; i < VG_NFD; i++) vg_fd_open[i] = ((int) i == fd);
-    s->fd = fd; s->flags = nondet_uint(); s->addr = NULL; s->local_url = NULL; s->remote_url = NULL;
-    d->len = nondet_long();
-    __CPROVER_assume(d->len >= 1 && d->len <= 2100);
-    d->size = d->len + 1;
-    d->s = malloc(d->size);
-    d->s[d->len] = 0;
-    __CPROVER_assume(vg_k >= (size_t) d->len || d->s[vg_k] != 0);       /* no NUL inside the text (ghost index) */
-    vg_wr_calls = 0; vg_wr_total = 0; libast_debug_level = 0;
-
-    spif_bool_t ok = spif_socket_send(s, d);
-
-    __CPROVER_assert(ok != TRUE || vg_wr_total == (size_t) d->len, "TRUE => the chunks accepted by write() add up to the payload length");
-    __CPROVER_assert(SOCK_FD_OK(s), "descriptor field is none or still open");
-    VERIF_CANARY();
-    free(d->s); free(d); free(s);        /* everything the caller owns; the chunk strings must be gone (leak check) */
-}
-#endif
